@@ -54,84 +54,175 @@ func nondetScan(c *Ctx, rule string, scope []*ssa.Function) {
 func trackAppendDiscipline(c *Ctx, rule string) {
 	p := c.P
 	tt := p.namedType("smf", "Track")
-	if tt == nil {
-		c.Unk(rule, "type smf.Track", "-", "not found")
+	evT := p.namedType("smf", "Event")
+	if tt == nil || evT == nil {
+		c.Unk(rule, "types smf.Track / smf.Event", "-", "not found")
 		return
 	}
 	isClosed := p.MethodOf(tt, "IsClosed")
-	if isClosed == nil {
-		c.Unk(rule, "Track.IsClosed", "-", "not found")
+	add := p.MethodOf(types.NewPointer(tt), "Add")
+	cls := p.MethodOf(types.NewPointer(tt), "Close")
+	if isClosed == nil || add == nil || cls == nil {
+		c.Unk(rule, "Track.IsClosed / Add / Close", "-", "not found")
 		return
 	}
-	eot := p.Pkg("smf").Var("EOT")
-	for _, name := range []string{"Add", "Close"} {
-		m := p.MethodOf(types.NewPointer(tt), name)
-		if m == nil {
-			c.Unk(rule, "Track."+name, "-", "not found")
-			continue
+	c.Fn(FuncName(isClosed))
+	c.Fn(FuncName(add))
+	c.Fn(FuncName(cls))
+	// Decided on abstract runs of the three methods on tracks of each kind (empty / open: last event a channel message /
+	// closed: last event FF 2F 00), with symbolic deltas and data bytes — not on how the guard is spelled:
+	//   IsClosed: false, false, true            Close(d): appends exactly (d, FF 2F 00) to an empty or open track,
+	//   Add(d, m) on a closed track: no change                leaves a closed track as it is
+	k8 := func(v int64) Val { return mkConst(v, 8, false) }
+	type kind int
+	const (
+		empty kind = iota
+		open
+		closed
+		nearly // last event FF 2F 01 xx: a meta event of type 2F that is NOT the end-of-track event
+	)
+	names := map[kind]string{empty: "empty", open: "open", closed: "closed", nearly: "open (last event FF 2F 01 xx)"}
+	mkTrack := func(ex *Exec, st *State, k kind) (int, []Val) {
+		var evs []Val
+		if k != empty {
+			ev := ex.zeroOf(evT).(*StructV)
+			ev.Fields[fieldIndex(ev.T, "Delta")] = mkSym(ex.syms.Get("d0", 32, false))
+			ev.Fields[fieldIndex(ev.T, "Message")] = ex.mkBytes(st, "m0", []Val{k8(0x93), dataTok(ex, st, "k0"), dataTok(ex, st, "v0")}, false, 0)
+			evs = append(evs, ev)
 		}
-		c.Fn(FuncName(m))
-		recv := m.Params[0]
-		nst := 0
-		for _, b := range m.Blocks {
-			for _, in := range b.Instrs {
-				st, ok := in.(*ssa.Store)
-				if !ok || st.Addr != recv {
+		if k == closed {
+			ev := ex.zeroOf(evT).(*StructV)
+			ev.Fields[fieldIndex(ev.T, "Delta")] = mkSym(ex.syms.Get("d1", 32, false))
+			ev.Fields[fieldIndex(ev.T, "Message")] = ex.mkBytes(st, "eot", []Val{k8(0xFF), k8(0x2F), k8(0x00)}, false, 0)
+			evs = append(evs, ev)
+		}
+		if k == nearly {
+			ev := ex.zeroOf(evT).(*StructV)
+			ev.Fields[fieldIndex(ev.T, "Delta")] = mkSym(ex.syms.Get("d1", 32, false))
+			ev.Fields[fieldIndex(ev.T, "Message")] = ex.mkBytes(st, "m2f", []Val{k8(0xFF), k8(0x2F), k8(0x01), ex.byteSym("x")}, false, 0)
+			evs = append(evs, ev)
+		}
+		var tv Val
+		if len(evs) == 0 {
+			tv = ex.zeroOf(tt)
+		} else {
+			aid := ex.newObj(st, &ArrayV{Elem: evT, Segs: []Seg{{Elems: evs}}}, nil)
+			n := mkConst(int64(len(evs)), 64, true)
+			tv = &SliceV{Obj: aid, Off: mkConst(0, 64, true), Len: n, Cap: n}
+		}
+		return ex.newObj(st, tv, tt), evs
+	}
+	isEOT := func(st *State, ex *Exec, ev *StructV) bool {
+		ms, _ := ev.Fields[fieldIndex(ev.T, "Message")].(*SliceV)
+		if ms == nil {
+			return false
+		}
+		el, ok := ex.sliceElems(st, ms)
+		if !ok || len(el) != 3 {
+			return false
+		}
+		for i, w := range []int64{0xFF, 0x2F, 0x00} {
+			iv, _ := el[i].(*IntV)
+			if iv == nil {
+				return false
+			}
+			if cv, k := st.ConstOf(iv); !k || cv != w {
+				return false
+			}
+		}
+		return true
+	}
+	for _, k := range []kind{empty, open, closed, nearly} {
+		// IsClosed
+		{
+			ex := NewExec(p)
+			st := ex.NewState()
+			tobj, _ := mkTrack(ex, st, k)
+			ok, why, n := true, "", 0
+			for _, o := range ex.Call(st, isClosed, []Val{st.heap[tobj]}, nil) {
+				n++
+				bv, _ := o.Ret[0].(*BoolV)
+				v, known := false, false
+				if bv != nil {
+					v, known = o.St.boolOf(bv)
+				}
+				if o.Panic || !known || v != (k == closed) {
+					ok, why = false, fmt.Sprintf("IsClosed of the %s track is %s, expected %v %s", names[k], valString(o.Ret[0]), k == closed, o.Msg)
+				}
+			}
+			c.Check(ok && n > 0, rule, "Track.IsClosed on the "+names[k]+" track", p.Pos(isClosed.Pos()), fmt.Sprintf("%v", k == closed), why)
+		}
+		// Close
+		{
+			ex := NewExec(p)
+			st := ex.NewState()
+			tobj, evs := mkTrack(ex, st, k)
+			d := mkSym(ex.syms.Get("dc", 32, false))
+			ok, why, n := true, "", 0
+			for _, o := range ex.Call(st, cls, []Val{&PtrV{Obj: tobj}, d}, nil) {
+				n++
+				if o.Panic || len(problemEvents(o.St.Events)) > 0 {
+					ok, why = false, "Close may panic: "+o.Msg+fmtEvents(problemEvents(o.St.Events))
 					continue
 				}
-				nst++
-				// must be dominated by the false edge of IsClosed()
-				guarded := false
-				for _, call := range calls(m) {
-					if call.Common().StaticCallee() != isClosed || call.Value() == nil {
-						continue
-					}
-					for _, u := range liveRefs(call.Value()) {
-						if iff, ok := u.(*ssa.If); ok {
-							_, fe := ifEdges(iff)
-							if edgeDominates(m, fe, b) || fe.to == b {
-								guarded = true
-							}
-						}
+				tsl, _ := o.St.heap[tobj].(*SliceV)
+				got, okS := ex.sliceElems(o.St, tsl)
+				want := len(evs)
+				if k != closed {
+					want++
+				}
+				if !okS || len(got) != want {
+					ok, why = false, fmt.Sprintf("Close on the %s track leaves %d events, expected %d (exactly one end-of-track at the end, none added to a closed track)", names[k], len(got), want)
+					continue
+				}
+				last, _ := got[len(got)-1].(*StructV)
+				if last == nil || !isEOT(o.St, ex, last) {
+					ok, why = false, "the last event after Close is not the end-of-track event FF 2F 00"
+					continue
+				}
+				if k != closed {
+					if dl, _ := last.Fields[fieldIndex(last.T, "Delta")].(*IntV); dl == nil || !o.St.sameInt(dl, d) {
+						ok, why = false, "the end-of-track event does not carry the delta given to Close"
 					}
 				}
-				c.Check(guarded, rule, fmt.Sprintf("Track.%s append #%d guarded by !IsClosed", name, nst), p.Pos(st.Pos()), "the store to the track is only reachable through the not-closed edge", "an event can be appended to a track that is already closed (a second end-of-track, or events after it)")
-			}
-		}
-		if nst == 0 {
-			c.Bad(rule, "Track."+name+" appends", p.Pos(m.Pos()), "method never stores to the track")
-		}
-		// which message does it append? Close: a load of EOT must flow into the appended event; Add: must not reference EOT
-		refsEOT := false
-		for _, b := range m.Blocks {
-			for _, in := range b.Instrs {
-				if l, ok := in.(*ssa.UnOp); ok && l.Op == token.MUL && eot != nil && l.X == eot {
-					refsEOT = true
+				for i := 0; i < len(evs) && i < len(got)-1; i++ {
+					if g, _ := got[i].(*StructV); g == nil || isEOT(o.St, ex, g) {
+						ok, why = false, "an end-of-track event sits before the last position after Close"
+					}
 				}
 			}
-		}
-		if name == "Close" {
-			c.Check(refsEOT, rule, "Track.Close appends the end-of-track constant", p.Pos(m.Pos()), "the appended event's message is the package's EOT value", "Close does not append the end-of-track event")
-		} else {
-			c.Check(!refsEOT, rule, "Track.Add does not append end-of-track itself", p.Pos(m.Pos()), "ok", "Add references the end-of-track constant")
+			c.Check(ok && n > 0, rule, "Track.Close on the "+names[k]+" track", p.Pos(cls.Pos()), "exactly one end-of-track event, at the end, with the given delta; a closed track is left as it is", why)
 		}
 	}
-	// IsClosed: true only if the last event's message equals EOT
-	c.Fn(FuncName(isClosed))
-	okc := false
-	for _, call := range calls(isClosed) {
-		if calleeQual(call) == "reflect.DeepEqual" || calleeQual(call) == "bytes.Equal" {
-			for _, a := range call.Common().Args {
-				if mi, ok := a.(*ssa.MakeInterface); ok {
-					a = mi.X
-				}
-				if l, ok := strip(a).(*ssa.UnOp); ok && l.X == eot {
-					okc = true
-				}
+	// Add on a closed track
+	{
+		ex := NewExec(p)
+		st := ex.NewState()
+		tobj, evs := mkTrack(ex, st, closed)
+		d := mkSym(ex.syms.Get("da", 32, false))
+		m := ex.mkBytes(st, "mnew", []Val{k8(0x81), dataTok(ex, st, "k"), dataTok(ex, st, "v")}, false, 0)
+		mid := ex.newObj(st, &ArrayV{Elem: m1Type(add), Segs: []Seg{{Elems: []Val{m}}}}, nil)
+		one := mkConst(1, 64, true)
+		ok, why, n := true, "", 0
+		for _, o := range ex.Call(st, add, []Val{&PtrV{Obj: tobj}, d, &SliceV{Obj: mid, Off: mkConst(0, 64, true), Len: one, Cap: one}}, nil) {
+			n++
+			if o.Panic {
+				ok, why = false, o.Msg
+				continue
+			}
+			tsl, _ := o.St.heap[tobj].(*SliceV)
+			got, okS := ex.sliceElems(o.St, tsl)
+			if !okS || len(got) != len(evs) {
+				ok, why = false, fmt.Sprintf("Add on a closed track leaves %d events (it had %d): events after the end-of-track event make the track chunk invalid", len(got), len(evs))
+				continue
+			}
+			last, _ := got[len(got)-1].(*StructV)
+			if last == nil || !isEOT(o.St, ex, last) {
+				ok, why = false, "Add on a closed track replaces the end-of-track event"
 			}
 		}
+		c.Check(ok && n > 0, rule, "Track.Add on the closed track", p.Pos(add.Pos()), "nothing is appended behind the end-of-track event", why)
 	}
-	c.Check(okc, rule, "Track.IsClosed compares the last message with EOT", p.Pos(isClosed.Pos()), "closedness = last event is the end-of-track constant", "IsClosed does not compare with the end-of-track constant")
 }
 
 // headerCountRule (C03.2): count stored in the header derives from len(Tracks); the chunk loop ranges over the same
@@ -424,10 +515,11 @@ func checkC03(c *Ctx) {
 	c.Rule("C03.3", "header layout: MThd, length 6, format u16be, track count u16be, division (metric: u16be with bit 15 = 0 after the 32767 clamp, 0 -> 960; time code: -(fps) as int8, subframes)", 3)
 	c.Rule("C03.4", "end-of-track discipline: every append to a Track is dominated by the not-closed test, Close appends the end-of-track constant, Add does not", 4)
 	c.Rule("C03.5", "determinism: no map range, clock, random source, goroutine or select reachable from WriteTo", 1)
-	c.Rule("C03.6", "size accounting: the destination flows only into the counting wrapper; WriteTo returns its counter", 3)
+	c.Rule("C03.6", "size accounting: in the whole-file simulation of WriteTo the size reported on success is the number of bytes handed to the destination (until round 5 a flow rule \"the destination flows only into the counting wrapper, WriteTo returns a load of its counter\" stood here; it alarmed on a counter read through an accessor)", 1)
 	c.Rule("C03.7", "VLQ codec: encoder output equals the canonical encoding bit for bit in each magnitude cell; decoder = concatenation of 7-bit groups incl. non-minimal encodings; decode(encode(n)) = n", 5)
 	c.Rule("C03.8", "running status only where the format allows: per-event encoder table (see C01.2)", 4)
 	c.Rule("C03.9", "format promotion: (format 0, >1 tracks) -> format 1 and no other format change in WriteTo", 1)
+	c.Rule("C03.12", "content: in the whole-file simulation every event of every kind a file can hold (the seven channel kinds, a meta event, a complete sysex, an F7 packet) is written as VLQ(its delta) followed by its bytes in SMF framing, once and in order — the strict parser recovers exactly what was written (= C01.7)", 1)
 
 	writeTo := p.Method("smf", "SMF", "WriteTo")
 	if writeTo == nil {
@@ -436,11 +528,10 @@ func checkC03(c *Ctx) {
 	}
 	scope := minus(p.Reachable(writeTo), loggerFuncs(p))
 	ruleChunkFraming(c, "C03.1")
-	runWriteToSim(c, "", "C03.2", "C03.9", "C03.6", "")
+	runWriteToSim(c, "", "C03.2", "C03.9", "C03.6", "C03.12")
 	ruleHeaderWrite(c, "C03.3")
 	trackAppendDiscipline(c, "C03.4")
 	nondetScan(c, "C03.5", scope)
-	checkSizeAccounting(c, "C03.6", writeTo, scope)
 	if c.Tier == "thorough" || true {
 		ruleVLQ(c, "C03.7", "C03.7", "C03.7")
 	}
